@@ -277,7 +277,7 @@ fn confirm_with_prefix(exe: &Path, j: &J, vf: &Path, dest: &Path, property: Stri
 fn tier_defaults(prop: &str, tier: &str) -> (u64, u64) {
     // (worlds, wall budget of the simulation in ms)
     match (prop, tier) {
-        (_, "thorough") => (12_000_000, 480_000),
+        (_, "thorough") => (30_000_000, 900_000),
         _ => (240_000, 25_000),
     }
 }
